@@ -35,6 +35,7 @@ type HarnessSpec struct {
 	Arith    bool     `json:"arith"`
 	MapOrderAny bool  `json:"map_order_any"`
 	FifoChans bool    `json:"fifo_chans"`
+	Replace  map[string]string `json:"replace"` // additional replacements for this harness only
 	Note     string   `json:"note"`
 }
 
@@ -825,6 +826,24 @@ func runCheck(specPath, tier, only string, workers int, noNative, trace bool) in
 		hcfg := *cfg
 		hcfg.MapOrderAny = h.MapOrderAny
 		hcfg.FifoChans = h.FifoChans
+		if len(h.Replace) > 0 {
+			hcfg.replFn = map[string]*ssa.Function{}
+			hcfg.noReplInside = map[*ssa.Function]bool{}
+			for k, v := range cfg.replFn {
+				hcfg.replFn[k] = v
+			}
+			for k, v := range cfg.noReplInside {
+				hcfg.noReplInside[k] = v
+			}
+			for from, to := range h.Replace {
+				f := l.resolveHarnessFunc(to)
+				if f == nil {
+					fatal2("replacement target %q not found", to)
+				}
+				hcfg.replFn[from] = f
+				hcfg.noReplInside[f] = true
+			}
+		}
 		o, err := explore(l, &hcfg, fn, h.Name, workers, solverKind, h.Arith, trace)
 		if err != nil {
 			fatal2("explore %s: %v", h.Name, err)
@@ -903,6 +922,24 @@ func runCheck(specPath, tier, only string, workers int, noNative, trace bool) in
 		hcfg := *cfg
 		hcfg.MapOrderAny = false
 		hcfg.FifoChans = h.FifoChans
+		if len(h.Replace) > 0 {
+			hcfg.replFn = map[string]*ssa.Function{}
+			hcfg.noReplInside = map[*ssa.Function]bool{}
+			for k, v := range cfg.replFn {
+				hcfg.replFn[k] = v
+			}
+			for k, v := range cfg.noReplInside {
+				hcfg.noReplInside[k] = v
+			}
+			for from, to := range h.Replace {
+				f := l.resolveHarnessFunc(to)
+				if f == nil {
+					fatal2("replacement target %q not found", to)
+				}
+				hcfg.replFn[from] = f
+				hcfg.noReplInside[f] = true
+			}
+		}
 		// --- violations: group by label|finding, confirm first witness of each
 		seen := map[string]bool{}
 		for _, v := range o.res.Violations {
